@@ -129,10 +129,17 @@ example :
 /-- histories of the fragment, judged along the run: inserts / deletes on shard `s` (any tuples, any buffer size,
     so with and without auto-flush), crashes between operations, and crashes inside an operation after *any* of its
     file-system steps with the as-is image — except an image recognised by `imageDoubled` (the flush window between
-    the metadata rename and the WAL rewrite: finding `flush_crash_between_meta_and_wal`).  Torn cuts, relation drops,
-    compaction, explicit flush-all and crashes inside recovery are outside the fragment. -/
+    the metadata rename and the WAL rewrite: finding `flush_crash_between_meta_and_wal`), and crashes inside a recovery
+    after any of *its* steps (same exception, for the drain flush).  Torn cuts, relation drops, compaction and
+    explicit flush-all are outside the fragment. -/
 def admissible (b : Nat) (s : Name) : Sys → List HItem → Bool
   | _, [] => true
+  | .down d, .openCrash j none [] :: rest =>
+    -- a crash inside the recovery itself, after any of its FS steps (orphan cleanup, drain flush)
+    match openEngine d with
+    | none => true
+    | some w =>
+      !imageDoubled (imageAt d w.trace j none) && admissible b s (.down (imageAt d w.trace j none)) rest
   | sys, it :: rest =>
     match bringUp sys with
     | (_, none) => true
@@ -193,7 +200,27 @@ theorem C13_partial_flush (b : Nat) (s : Name) (h : List HItem)
           · left; rw [hc, hcc, hS]
     | cons it rest ih =>
       intro sys S P hinv hadm
-      -- first bring the engine up; a crash image is reopened and judged
+      -- a crash inside the recovery of a crash image
+      by_cases hoc : ∃ d j, sys = .down d ∧ it = .openCrash j none []
+      · obtain ⟨d, j, hsys, hit⟩ := hoc
+        subst hsys; subst hit
+        obtain ⟨C, C', md, X, es, himg, hc, hbC, hbC', hS, hP⟩ := hinv
+        obtain ⟨w, hopen, hpre⟩ := recover_pre himg
+        simp only [admissible, hopen, Bool.and_eq_true, Bool.not_eq_true'] at hadm
+        obtain ⟨hnd, hadm'⟩ := hadm
+        have hri : runItems b (.down d) (.openCrash j none [] :: rest) =
+            .crashed (metaOrder w.trace) :: runItems b (.down (imageAt d w.trace j none)) rest := by
+          simp [runItems, hopen]
+        rw [hri]
+        simp only [specJudge]
+        rw [imageAt_none] at hnd hadm' ⊢
+        rcases hpre j with ⟨md', X', es', himg', hcont⟩ | hd
+        · have hcont' : X' ++ es' = X ++ es := by rcases hcont with h | h <;> exact h
+          exact ih _ _ _ ⟨C, C', md', X', es', himg'.crash, by rw [hcont']; exact hc, hbC, hbC', hS, hP⟩ hadm'
+        · have := hd.crash.doubled
+          rw [this] at hnd
+          cases hnd
+      -- otherwise first bring the engine up; a crash image is reopened and judged
       have hup : ∃ w outs S', bringUp sys = (outs, some w) ∧ (∃ C, Run s w C ∧ Bin C ∧ S' = visOf s C) ∧
           (∀ more, specJudge S P (it :: rest) (outs ++ more) = specJudge S' none (it :: rest) more) := by
         cases sys with
@@ -267,7 +294,16 @@ theorem C13_partial_flush (b : Nat) (s : Name) (h : List HItem)
         rcases hrun.shape with ⟨_, himg, hC⟩ | ⟨sh, md0, X, _, _, _, himg, hC, _⟩
         · exact ih _ _ _ ⟨C, C, _, _, _, himg.crash, .inl (by simp [hC]), hbin, hbin, rfl, .inr ⟨rfl, rfl⟩⟩ hadm
         · exact ih _ _ _ ⟨C, C, _, _, _, himg.crash, .inl hC.symm, hbin, hbin, rfl, .inr ⟨rfl, rfl⟩⟩ hadm
-      | openCrash j cut ord => simp [admissible, hbu] at hadm
+      | openCrash j cut ord =>
+        cases sys with
+        | up w0 => simp [admissible, hbu] at hadm
+        | down d =>
+          cases cut with
+          | some c => simp [admissible, hbu] at hadm
+          | none =>
+            cases ord with
+            | nil => exact absurd ⟨d, j, rfl, rfl⟩ hoc
+            | cons o os => simp [admissible, hbu] at hadm
   have hinit : RunInv s (.up {}) [] none := by
     refine ⟨[], ⟨rfl, .inl ⟨rfl, ?_, rfl⟩⟩, fun x => .inl rfl, by simp [visOf, positive], rfl⟩
     exact ⟨fun _ => ⟨fun f => rfl, rfl, rfl⟩, fun m hm => (by cases hm), .inl ⟨rfl, rfl⟩, rfl⟩
@@ -276,8 +312,9 @@ theorem C13_partial_flush (b : Nat) (s : Name) (h : List HItem)
 /-- the fragment is not empty and not trivial: auto-flush, delete, crashes before / after the WAL fsync, inside the
     batch write, after the WAL rewrite; the window image is what `imageDoubled` rejects. -/
 example :
-    let h : List HItem := [.op (.ins r [0]), .opCrash (.ins r [1, 2]) 2 none, .op (.del r [0]), .opCrash (.ins r [3]) 4 none,
-      .restart, .opCrash (.ins r [4]) 9 none, .op (.ins r [5])]
+    let h : List HItem := [.op (.ins r [0]), .opCrash (.ins r [1, 2]) 2 none, .openCrash 5 none [], .op (.del r [0]),
+      .opCrash (.ins r [3]) 4 none, .restart, .opCrash (.ins r [4]) 9 none, .openCrash 3 none [], .openCrash 4 none [],
+      .op (.ins r [5])]
     admissible 2 r (.up {}) (h ++ [.restart]) = true ∧
     admissible 2 r (.up {}) ([.op (.ins r [0]), .opCrash (.ins r [1]) 8 none] ++ [.restart]) = false := by
   decide
